@@ -58,13 +58,7 @@ LA_METHODS = {
 
 
 def la_canon(o):
-    attrs = vars(o)
-    if set(attrs) != {"_modules_by_layer_name"}:
-        raise RuntimeError(f"harness fault: unknown LayeredArchitecture attributes {sorted(attrs)}")
-    return tuple(
-        (name, tuple((type(f).__name__, f.identifier) for f in fs))
-        for name, fs in attrs["_modules_by_layer_name"].items()
-    )
+    return e2.generic_canon(o)
 
 
 def la_observe(o):
@@ -151,30 +145,12 @@ for _m in ("layers_that", "should", "should_only", "should_not", "access_layers_
 
 
 def rule_canon(r):
-    """Complete attribute snapshot of a Rule (asserting the attribute set is the known one)."""
-    if r is None:
-        return None
-    attrs = vars(r)
-    if set(attrs) != {"_rule_matcher_class", "_modules_to_check_to_be_specified_next", "_configuration"}:
-        raise RuntimeError(f"harness fault: unknown Rule attributes {sorted(attrs)}")
-    c = attrs["_configuration"]
-    fields = vars(c)
-    if set(fields) != {"modules_to_check", "modules_to_check_against", "should", "should_only", "should_not",
-                       "except_present", "import_", "rule_object_anything"}:
-        raise RuntimeError(f"harness fault: unknown RuleConfiguration fields {sorted(fields)}")
-
-    def fl(xs):
-        return None if xs is None else tuple((type(f).__name__, f.identifier) for f in xs)
-
-    return (attrs["_modules_to_check_to_be_specified_next"], fl(c.modules_to_check), fl(c.modules_to_check_against),
-            c.should, c.should_only, c.should_not, c.except_present, c.import_, c.rule_object_anything)
+    """Complete attribute snapshot of a Rule (every attribute, also ones added later)."""
+    return e2.generic_canon(r)
 
 
 def lr_canon(o):
-    attrs = vars(o)
-    if set(attrs) != {"_rule", "_architecture", "_rule_matcher_class"}:
-        raise RuntimeError(f"harness fault: unknown LayerRule attributes {sorted(attrs)}")
-    return (attrs["_architecture"] is not None, rule_canon(attrs["_rule"]))
+    return e2.generic_canon(o)
 
 
 def lr_spec_step(st, action):
